@@ -46,7 +46,7 @@ func copyTree(src, dst string) error {
 // makeInjectedCorpus copies the dependency modules next to a corpus module that replaces them with the local copies.
 func makeInjectedCorpus(deps []corpusDep) (string, error) {
 	root := ggrun.Scratch()
-	sum, _ := os.ReadFile("/repo/go.sum")
+	sum, _ := os.ReadFile(repoDir() + "/go.sum")
 	mod := corpusGoMod + "\nreplace (\n"
 	os.MkdirAll(filepath.Join(root, "deps"), 0o755)
 	for _, d := range deps {
